@@ -48,10 +48,16 @@ func (g *tgen) term(depth int, allowVars bool) *G {
 		return gc("g", g.term(depth-1, allowVars), g.term(depth-1, allowVars))
 	case n == 10:
 		return gc("f", g.term(depth-1, allowVars), g.term(depth-1, allowVars))
-	case n == 11: // a list of single-character atoms (a "string")
+	case n == 11: // a list of single-character atoms (a "string"), or the list of their codes
 		var es []*G
+		codes := r.coin(0.35)
 		for i, k := 0, 1+r.intn(3); i < k; i++ {
-			es = append(es, ga([]string{"a", "b", "c", "é", "日"}[r.intn(5)]))
+			c := []string{"a", "b", "c", "é", "日"}[r.intn(5)]
+			if codes {
+				es = append(es, gi(int64([]rune(c)[0])))
+			} else {
+				es = append(es, ga(c))
+			}
 		}
 		return glist(es, nil)
 	case n == 12:
@@ -80,6 +86,20 @@ func isCharList(t *G) (string, bool) {
 			return "", false
 		}
 		s += h.S
+		t = t.Args[1]
+	}
+	return s, t.K == 'a' && t.S == "[]" && s != ""
+}
+
+// isCodeList: a proper non-empty list of character codes of the generator's alphabet
+func isCodeList(t *G) (string, bool) {
+	s := ""
+	for t.K == 'c' && t.S == "." && len(t.Args) == 2 {
+		h := t.Args[0]
+		if h.K != 'i' || !(h.I == 97 || h.I == 98 || h.I == 99 || h.I == 233 || h.I == 26085) {
+			return "", false
+		}
+		s += string(rune(h.I))
 		t = t.Args[1]
 	}
 	return s, t.K == 'a' && t.S == "[]" && s != ""
@@ -142,6 +162,11 @@ func (g *tgen) render(t *G, paths bool) string {
 			case 1:
 				return `"` + s + `"` // read under double_quotes = chars
 			}
+		}
+		if s, ok := isCodeList(t); ok && paths && !g.literal && g.r.coin(0.6) {
+			v := g.fresh()
+			g.setup = append(g.setup, fmt.Sprintf("atom_codes(%s, %s)", quoteAtom(s), v)) // a string-backed code list
+			return v
 		}
 		var el []string
 		for _, e := range es {
